@@ -78,12 +78,17 @@ func (tc *TrCtx) emitAlloc(v TVal) {
 	if !ok {
 		return
 	}
+	var fact string
 	switch v.typ.Underlying().(type) {
 	case *types.Pointer, *types.Map:
+		fact = implies(c, fmt.Sprintf("(and (<= 0 %s) (< %s %s))", v.t, v.t, tc.st.next))
+	case *types.Slice:
+		// type invariant of slice values held in allocated memory
+		sn := tc.S().sortOf(v.typ)
+		fact = implies(c, fmt.Sprintf("(and (>= (len_%s %s) 0) (=> (nil_%s %s) (= (len_%s %s) 0)))", sn, v.t, sn, v.t, sn, v.t))
 	default:
 		return
 	}
-	fact := implies(c, fmt.Sprintf("(and (<= 0 %s) (< %s %s))", v.t, v.t, tc.st.next))
 	fact = tc.wrapLets(fact)
 	var qs []string
 	for _, b := range tc.bound {
